@@ -1047,6 +1047,27 @@ Proof.
   subst e'. destruct (suppressed rt e); [exact IH | reflexivity].
 Qed.
 
+(* hash-as-produced: the heap-level check reads the same value as the value-level one and leaves the heap alone *)
+Lemma hhashing_spec {A B A' B'} (pa : A -> A') (pb : B -> B') (okB : heap -> B -> Prop)
+  (keyh : B -> pv) (keyv : B' -> pv) (f : heap -> A -> hres B) (g : A' -> res B') h x :
+  (forall y, keyh y = keyv (pb y)) ->
+  hspec pb okB h (f h x) (g (pa x)) ->
+  hspec pb okB h (hhashing rt keyh f h x) (hashing rt keyv g (pa x)).
+Proof.
+  intros Hkey Hf. unfold hhashing, hashing.
+  eapply (hspec_bind pb pb okB okB); [exact Hf|].
+  intros h' y E' Oy. cbn beta. unfold hash_check. rewrite Hkey.
+  destruct (unhashable rt (keyv (pb y))); [reflexivity | apply hspec_ok; [apply ext_refl | reflexivity | exact Oy]].
+Qed.
+
+Lemma helem_conv_spec (okB : heap -> lv -> Prop) k (f : heap -> lv -> hres lv) (g : pv -> res pv) h x :
+  hspec snd okB h (f h x) (g (snd x)) ->
+  hspec snd okB h (helem_conv rt k f h x) (elem_conv rt k g (snd x)).
+Proof.
+  intros Hf. unfold helem_conv, elem_conv. destruct (hashes k); [|exact Hf].
+  apply (hhashing_spec snd snd okB snd (fun v => v)); [reflexivity | exact Hf].
+Qed.
+
 Lemma hmap_step_spec (b : Prop) n hrec rec kt vt h kv :
   n <= length h ->
   (forall t h' a, (t = kt \/ t = vt) -> ext h h' -> lv_ok h' a -> hspec snd (okf b n) h' (hrec t h' a) (rec t (snd a))) ->
@@ -1205,7 +1226,8 @@ Proof.
     eapply (hspec_bind (map vpair) snd (fun h' l' => Forall (okf2 (bT (TMap k kt vt)) (length h) h') l')).
     + apply (hmapM_spec vpair vpair pair_ok); [intros; eapply pair_ok_ext; eauto | | exact Okvs |].
       * intros h0 h' p E' [P1 P2]. split; eapply okf_ext; eauto.
-      * intros h' kv E' _ Hkv. eapply hspec_weaken; [|apply (hmap_step_spec (bT (TMap k kt vt)) (length h)); [| |exact Hkv]].
+      * intros h' kv E' _ Hkv. apply (hhashing_spec vpair vpair); [reflexivity|].
+        eapply hspec_weaken; [|apply (hmap_step_spec (bT (TMap k kt vt)) (length h)); [| |exact Hkv]].
         -- intros h'' p _ Hp. exact Hp.
         -- apply ext_length. eapply ext_trans; eauto.
         -- intros t0 h'' a0 Ht0 E'' Ha0. apply IH_okf; [| eapply ext_trans; [eapply ext_trans; eauto|exact E''] | exact Ha0].
@@ -1359,7 +1381,7 @@ Proof.
     eapply (hspec_bind (map snd) snd (fun h' l' => Forall (okf (bU (TSeq k e)) (length h) h') l')).
     + apply (hmapM_spec snd snd lv_ok); [intros; eapply lv_ok_ext; eauto | | exact Ovs |].
       * intros h3 h' b0 E'. apply okf_ext. exact E'.
-      * intros h' a0 E' _ Ha0. apply IH_okf_u; [exact (fun x => x) | eapply ext_trans; eauto | exact Ha0].
+      * intros h' a0 E' _ Ha0. apply helem_conv_spec. apply IH_okf_u; [exact (fun x => x) | eapply ext_trans; eauto | exact Ha0].
     + intros h2 rs E2 Ors. cbn beta.
       assert (E02 : ext h h2) by (eapply ext_trans; eauto).
       apply (new_ok_res_u (bU (TSeq k e))); [exact E02 | exact (fun x => x)|].
@@ -1372,7 +1394,8 @@ Proof.
     eapply (hspec_bind (map vpair) snd (fun h' l' => Forall (okf2 (bU (TMap k kt vt)) (length h) h') l')).
     + apply (hmapM_spec vpair vpair pair_ok); [intros; eapply pair_ok_ext; eauto | | exact Okvs |].
       * intros h3 h' p E' [P1 P2]. split; eapply okf_ext; eauto.
-      * intros h' kv E' _ Hkv. eapply hspec_weaken; [|apply (hmap_step_spec (bU (TMap k kt vt)) (length h)); [| |exact Hkv]].
+      * intros h' kv E' _ Hkv. apply (hhashing_spec vpair vpair); [reflexivity|].
+        eapply hspec_weaken; [|apply (hmap_step_spec (bU (TMap k kt vt)) (length h)); [| |exact Hkv]].
         -- intros h'' p _ Hp. exact Hp.
         -- apply ext_length. eapply ext_trans; eauto.
         -- intros t0 h'' a0 Ht0 E'' Ha0. apply IH_okf_u; [| eapply ext_trans; [eapply ext_trans; [exact E01|exact E']|exact E''] | exact Ha0].
